@@ -6,7 +6,7 @@ Per case: {"plans": [{"mdp": gen_mdp case}, ...] planned on IN TURN BY ONE LAOSt
 Result per plan: convergence flag, initial value, every node of the explicit graph (value, optimal action,
 expanded), the solution graph's states, the returned policy queried at EVERY state id, and one record
 per main-loop iteration (expanded state, ancestor set Z, snapshot of all nodes after the revision)."""
-import os, sys
+import os, sys, json
 sys.path.insert(0, os.path.dirname(os.path.abspath(__file__)))
 from build import *
 
@@ -53,21 +53,34 @@ def build_rep(m, rep):
     al = [action_label(rep, a) for a in range(m["nA"])]
     assert len(set(map(lambda x: (type(x).__name__, x), sl))) == n and len({(type(x).__name__, x) for x in al}) == m["nA"]
     mixed = rep.get("dist", "dict") == "mixed"
-    trans = {}
+    import numpy as np
+    from fractions import Fraction
+
+    def num(x, reward=False):
+        q = Fraction(x)
+        if rep.get("int_numbers") and q.denominator == 1 and abs(q) < 2**53:
+            return int(q)                                   # integer-typed input where floats are usual
+        if reward and rep.get("float32_rewards") and Fraction(float(np.float32(float(q)))) == q:
+            return np.float32(float(q))
+        return float(q)
+    trans, share = {}, {}
     for k, row in m["trans"].items():
         s, a = map(int, k.split(","))
-        ps = [fl(p) for ns, p in row]
+        ps = [num(p) for ns, p in row]
         if mixed and len(row) == 1:
             d = DeterministicDistribution(sl[row[0][0]])
         elif mixed and len(row) > 1 and len(set(row_p for ns, row_p in row)) == 1:
             d = DictDistribution.uniform([sl[ns] for ns, p in row])
         else:
             d = DictDistribution({sl[ns]: p for (ns, _), p in zip(row, ps)})
+        if rep.get("share"):
+            # ONE distribution object for all (s, a) with the same row (and it is returned on every call)
+            d = share.setdefault(json.dumps(row), d)
         trans[(s, a)] = d
     rew = {}
     for k, r in m["reward"].items():
         s, a, ns = map(int, k.split(","))
-        rew[(s, a, ns)] = fl(r)
+        rew[(s, a, ns)] = num(r, reward=True)
     sidx = {}
     for i, x in enumerate(sl):
         sidx[(type(x).__name__, x)] = i
@@ -76,6 +89,9 @@ def build_rep(m, rep):
     ai = lambda x: aidx[(type(x).__name__, x)]
     as_list = rep.get("actions_as", "tuple") == "list"
     acts = [([al[a] for a in row] if as_list else tuple(al[a] for a in row)) for row in m["actions"]]
+    if rep.get("share"):
+        pool = {}
+        acts = [pool.setdefault(json.dumps(row), x) for row, x in zip(m["actions"], acts)]   # one list object for equal action sets
     absorbing = list(m["absorbing"])
     g = fl(m["gamma"])
     if rep.get("gamma_int") and g == 1.0:
@@ -87,7 +103,7 @@ def build_rep(m, rep):
         if kw["initial_state"] is None:
             kw = {}
     if not kw:
-        kw["initial_state_dist"] = DictDistribution({sl[s]: fl(p) for s, p in m["init"]})
+        kw["initial_state_dist"] = DictDistribution({sl[s]: num(p) for s, p in m["init"]})
     cls = QuickMDP if rep.get("cls") == "quick" else QuickTabularMDP
     mdp = cls(next_state_dist=lambda s, a: trans[(si(s), ai(a))],
               reward=lambda s, a, ns: rew.get((si(s), ai(a), si(ns)), 0.0),
@@ -101,12 +117,22 @@ def build_rep(m, rep):
         except BaseException as e:
             if isinstance(e, (KeyboardInterrupt, SystemExit)):
                 raise
-    return mdp, sl, al, si, ai
+    def frozen():
+        """snapshot of every object handed to msdm (to detect mutation of the caller's objects)"""
+        return repr(([(k, type(d).__name__, sorted(((type(x).__name__, repr(x)), repr(p)) for x, p in d.items()))
+                      for k, d in sorted(trans.items())],
+                     [(type(x).__name__, list(map(repr, x))) for x in acts],
+                     sorted((k, repr(v)) for k, v in rew.items()), list(absorbing),
+                     sorted(((type(x).__name__, repr(x)), repr(p)) for x, p in kw.get("initial_state_dist", {}).items())))
+    return mdp, sl, al, si, ai, frozen
 
 
-def query_policy(res, sl, ai):
+def query_policy(res, sl, ai, only=None):
     pol = []
-    for x in sl:
+    for i, x in enumerate(sl):
+        if only is not None and i not in only:
+            pol.append(None)
+            continue
         try:
             d = res.policy.action_dist(x)
             row = []
@@ -143,7 +169,9 @@ def plan_result(res, sl, si, ai, with_trace):
         "value_map": [[si(s), fj(v)] for s, v in res.state_value_map.items()],
         "solution_states": [si(s) for s in res.solution_graph.states_to_nodes.keys()],
         "tips": [si(s) for s in res.solution_graph.nonterminal_tip_states],
-        "policy_early": query_policy(res, sl, ai),
+        # right after planning the policy is queried on the even-numbered states only; after the planner has
+        # moved on it is queried everywhere (so the odd-numbered states are touched for the first time then)
+        "policy_early": query_policy(res, sl, ai, only=set(range(0, len(sl), 2))),
     }
     if with_trace:
         out["nodes"] = snapshot(res.explicit_graph, si, ai)
@@ -159,11 +187,12 @@ def one(case, pl):
     Everything is reported by state / action INDEX, whatever labels the representation uses."""
     from msdm.algorithms.laostar import LAOStar, LAOStarEventListener
     from fractions import Fraction
-    import json
     import traceback
     rep = case.get("rep", {})
-    hv = [float(Fraction(int(x[0]), int(x[1]))) for x in case["h"]]
-    cur = {}
+    tables = [[float(Fraction(int(x[0]), int(x[1]))) for x in plan.get("h", case["h"])] for plan in case["plans"]]
+    hv = tables[0]
+    same_const = len({v for t in tables for v in t}) == 1
+    cur = {"hv": hv}
 
     class Rec(LAOStarEventListener):
         def __init__(self):
@@ -174,10 +203,10 @@ def one(case, pl):
                                "Z": list(lv["ancestors"].keys()),
                                "nodes": snapshot(lv["explicit_graph"], cur["si"], cur["ai"])})
 
-    if rep.get("h_as") in ("number", "int") and len(set(hv)) == 1:
+    if rep.get("h_as") in ("number", "int") and same_const:
         heur = int(hv[0]) if rep["h_as"] == "int" and hv[0] == int(hv[0]) else hv[0]   # non-callable heuristic
     else:
-        heur = lambda s: hv[cur["si"](s)]
+        heur = lambda s: cur["hv"][cur["si"](s)]        # ONE callable; it reads the table of the problem at hand
 
     def make(**extra):
         if case.get("default_args"):
@@ -188,16 +217,18 @@ def one(case, pl):
                        event_listener_class=Rec, **extra)
     lao = make()
     outs, kept, built = [], [], {}
-    for plan in case["plans"]:
+    for pi_, plan in enumerate(case["plans"]):
         try:
+            cur["hv"] = tables[pi_]
             key = json.dumps(plan["mdp"], sort_keys=True)
             if rep.get("mdp_reuse") and key in built:
                 b = built[key]                      # the very same MDP object is planned on again
             else:
                 b = build_rep(plan["mdp"], rep)
                 built[key] = b
-            mdp, sl, al, si, ai = b
+            mdp, sl, al, si, ai, frozen = b
             cur["si"], cur["ai"] = si, ai
+            before = frozen()
             res = lao.plan_on(mdp)
             budget = None
             mode = case.get("budget_mode")
@@ -208,10 +239,11 @@ def one(case, pl):
                 budget = int(res.iterations) - (0 if mode == "exact" else 1)
                 res = make(max_lao_star_iterations=budget).plan_on(mdp)
             o = plan_result(res, sl, si, ai, not case.get("default_args"))
+            o["inputs_mutated"] = frozen() != before
             o["budget"] = budget
             o["budget_mode"] = case.get("budget_mode") if budget is not None else None
             outs.append(o)
-            kept.append((res, sl, si, ai))
+            kept.append((res, sl, si, ai, tables[pi_], frozen, before))
         except BaseException as e:
             if isinstance(e, (KeyboardInterrupt, SystemExit)):
                 raise
@@ -221,10 +253,11 @@ def one(case, pl):
     for o, k in zip(outs, kept):
         if k is None:
             continue
-        res, sl, si, ai = k
-        cur["si"], cur["ai"] = si, ai
+        res, sl, si, ai, tb, frozen, before = k
+        cur["si"], cur["ai"], cur["hv"] = si, ai, tb
         o["policy"] = query_policy(res, sl, ai)
-        o["policy_stable"] = (o["policy"] == o["policy_early"])
+        o["policy_stable"] = all(e is None or e == l for e, l in zip(o["policy_early"], o["policy"]))
+        o["inputs_mutated"] = o["inputs_mutated"] or frozen() != before
         if len(sl) > 200:
             del o["policy_early"]
     return {"plans": outs}
